@@ -29,8 +29,8 @@ ASSUMPTIONS = [
     "that filtered fraction records equal unfiltered ones is C10's subject; here the unfiltered run supplies the fractions",
 ]
 SETTINGS: Dict[str, Dict[str, Any]] = {
-    "quick": {"cases": 1500, "cli_cases": 48, "budget_s": 45, "minimums": {"lines_checked": 6000, "nontrivial": 800, "new_year_offset_events": 200, "cli_runs": 5}},
-    "thorough": {"cases": 60000, "cli_cases": 150, "budget_s": 300, "minimums": {"lines_checked": 250000, "nontrivial": 30000, "new_year_offset_events": 8000, "cli_runs": 100}},
+    "quick": {"cases": 1500, "cli_cases": 48, "budget_s": 45, "minimums": {"corpus_runs": 100, "lines_checked": 6000, "nontrivial": 800, "new_year_offset_events": 200, "cli_runs": 5}},
+    "thorough": {"cases": 60000, "cli_cases": 150, "budget_s": 300, "minimums": {"corpus_runs": 100, "lines_checked": 250000, "nontrivial": 30000, "new_year_offset_events": 8000, "cli_runs": 100}},
 }
 PROFILES = [
     Profile(gap_style="long", max_events=20, min_events=6, p_earn=0.4),
@@ -101,6 +101,9 @@ def _windows(rng: Any, hist: Dict[str, Any]) -> List[List[Optional[str]]]:
 
 
 def run_shard(ctx: Any) -> None:
+    from rpv.checks import corpus_slice
+
+    corpus_slice.run(ctx, PROPERTY_ID)  # the repository's own example inputs, every method and the config's schedule
     ip = get_ip(ctx)
     settings = SETTINGS[ctx.tier]
     share = ctx.share(settings["cases"])
@@ -126,6 +129,11 @@ def run_shard(ctx: Any) -> None:
 
 
 def replay(ctx: Any, case: Dict[str, Any]) -> None:
+    if case.get("corpus"):
+        from rpv.checks import corpus_slice
+
+        corpus_slice.replay(ctx, PROPERTY_ID, case)
+        return
     if case.get("cli"):
         from rpv.checks import cli_slices
 
